@@ -141,6 +141,16 @@ Definition vres_agree (m : outcome unit) (i : vres) : bool :=
   | _, _ => false
   end.
 
+(* the values of every entry with key k of an object, in document order (repeats kept) *)
+Definition entries (j : json) (k : str) : list json :=
+  match j with
+  | JObj m => map snd (filter (fun p => str_eqb (fst p) k) m)
+  | _ => []
+  end.
+Definition entry_strs (j : json) (k : str) : list str :=
+  flat_map (fun v => match v with JStr s => [s] | _ => [] end) (entries j k).
+Definition last_entry (j : json) (k : str) : option json := List.last (map Some (entries j k)) None.
+
 (* ------------------------------------------------------------- cases *)
 
 Inductive c19_case :=
@@ -148,8 +158,10 @@ Inductive c19_case :=
     (* Image::deserialize on the document (pairs in the order the deserializer delivered them) *)
 | CImageRT (h w : N) (pix : list rgba) (ser : json) (back : ires)
     (* an image (possibly a cropped view) with these pixels: to_value, then from_value *)
-| CImageCh (c h w : N) (data : list N) (doc : json) (impl : ires)
-    (* a document in the c-channel layout whose data field is the base64 of `data` *)
+| CImageCh (c h w : N) (parts : list (list N)) (doc : json) (impl : ires)
+    (* a streamed document in the c-channel layout: its `data` entries, in document order, are the base64
+       of `parts` (a repeated `data` key appends); `size` / `channels` may be repeated too (the last one
+       counts) *)
 | CFace (f : face) (printed : str) (reparsed : fres) (ser : json) (back : fres)
     (* Display, FromStr of it, to_value, from_value *)
 | CFaceParse (s : str) (tbl : list (str * option rgba)) (impl : fres) (printed : str) (reparsed : fres)
@@ -177,12 +189,21 @@ Definition c19_check (c : c19_case) : bool * bool :=
       let img := {| i_h := h; i_w := w; i_pix := pix |} in
       (json_eqb (image_ser img) ser && ires_eqb (ires_of (image_de ser)) back,
        ires_eqb back (IOk h w pix))
-  | CImageCh ch h w data doc impl =>
+  | CImageCh ch h w parts doc impl =>
+      let data := concat parts in
       (ires_eqb (ires_of (image_de doc)) impl,
        negb (ires_eqb impl IPanic)
-       && (if (N.of_nat (length data) =? ch * h * w) && channels_ok ch
-              && opt_eqb str_eqb (match jget doc (s2l "data") with Some (JStr s) => Some s | _ => None end)
-                                 (Some (rfc4648 data))
+       && (if (N.of_nat (length data) =? ch * h * w) && channels_ok ch && (ch * h * w <? usize_lim)
+              (* the document says what the case says: data entries = base64 of the parts, in order;
+                 every size entry is a size and the last one is (h, w); every channels entry is 1, 3 or 4
+                 and the last one is ch (none at all: 3) *)
+              && list_eqb str_eqb (entry_strs doc (s2l "data")) (map rfc4648 parts)
+              && forallb (fun v => match v with JStr _ => true | _ => false end) (entries doc (s2l "data"))
+              && forallb (fun v => match de_size v with Some _ => true | None => false end) (entries doc (s2l "size"))
+              && opt_eqb (fun a b => (fst a =? fst b) && (snd a =? snd b))
+                         (match last_entry doc (s2l "size") with Some v => de_size v | None => None end) (Some (h, w))
+              && forallb (fun v => match de_usize v with Some x => channels_ok x | None => false end) (entries doc (s2l "channels"))
+              && opt_eqb N.eqb (match last_entry doc (s2l "channels") with Some v => de_usize v | None => Some 3 end) (Some ch)
            then ires_eqb impl (IOk h w (pixels_of ch data))
            else true))
   | CFace f printed reparsed ser back =>
